@@ -141,6 +141,11 @@ public:
         half(tgtIdx, tgtData, nTgt, srcIdx, srcRhs, nSrc, 26 - code, b2);
         mid();
         halfWrite(tgtIdx, tgtRhs, nTgt, code, 0);
+        if (static_cast<const void*>(srcRhs[0]) == static_cast<const void*>(tgtRhs[0])) {
+            // periodic images: a leaf can be its own neighbour; both halves then accumulate into the same rows,
+            // so the second half must be added to what the first half just wrote
+            for (long j = 0; j < nSrc; ++j) { scratch[b2 + 2 + size_t(2 * j)] = srcRhs[0][j]; scratch[b2 + 3 + size_t(2 * j)] = srcRhs[1][j]; }
+        }
         halfWrite(srcIdx, srcRhs, nSrc, 26 - code, b2);
     }
 
